@@ -31,8 +31,8 @@ type wgOp struct {
 	Op    string `json:"op"` // add | done
 	Elems []int  `json:"elems"`
 	Yld   int    `json:"yld,omitempty"`
-	// Inter: operations another caller performs while this Add sits at its At-th yield point (the point between
-	// finding an element already pending and correcting the counter). Sequential variant only.
+	// Inter: operations another caller performs while this Add sits at its At-th yield point (one per element, between
+	// the insertion into the pending set and the counter correction). Sequential variant only.
 	Inter []wgInter `json:"inter,omitempty"`
 }
 
@@ -133,22 +133,24 @@ func runWGSeq(p wgSeqProg) verdict {
 			w.Done(o.Elems...)
 			m.done(o.Elems)
 		} else {
-			// mirror Add element by element so the model sees the interleaved operations at the same points
+			// the library calls the yield point once per element, right after the insertion attempt: mirror Add
+			// element by element so the model sees the interleaved operations at the same points
 			yield := 0
 			inHook := false
-			idx := 0 // element the library is currently processing
+			idx := 0 // next element the library inserts
 			reactive.VerifHookWaitGroupAdd = func() {
 				if inHook {
-					return
+					return // yield points of operations performed by the "other caller" are not used
 				}
 				inHook = true
 				defer func() { inHook = false }()
-				// the library reached the yield point for the next already-pending element: advance the model to it
-				for idx < len(o.Elems) && !m.pending[o.Elems[idx]] {
+				if idx < len(o.Elems) {
+					if m.pending[o.Elems[idx]] {
+						labels["add_of_pending_element"] = true
+					}
 					m.pending[o.Elems[idx]] = true
 					idx++
 				}
-				idx++ // the already pending element itself
 				for _, in := range o.Inter {
 					if in.At == yield {
 						for _, x := range in.Ops {
@@ -176,11 +178,9 @@ func runWGSeq(p wgSeqProg) verdict {
 			}
 			w.Add(o.Elems...)
 			reactive.VerifHookWaitGroupAdd = nil
-			for ; idx < len(o.Elems); idx++ {
-				m.pending[o.Elems[idx]] = true
-			}
-			if yield > 0 {
-				labels["add_of_pending_element"] = true
+			if yield != len(o.Elems) {
+				v.Msg = fmt.Sprintf("harness: Add%v passed %d yield points (the verif hook is expected once per element)", o.Elems, yield)
+				break
 			}
 		}
 		if !check(o.String()) {
@@ -207,11 +207,11 @@ func genWGSimple() *rapid.Generator[wgOp] {
 const checkWGSeq = "waitgroup_sequential"
 
 func TestWaitGroupSeq(t *testing.T) {
-	stats.Rule(checkWGSeq, "rapid draws initial elements (0..3) and 1-12 Add / Done calls with 0-3 elements each (already pending, absent and repeated elements on purpose); an Add may carry operations that another caller performs while the Add sits at its k-th verif yield point (between finding an element already pending and correcting the counter) - a deterministic, shrinkable enumeration of the Add||Done window. Oracle after every call: pending set == model; without interleaving: triggered <=> a Done removed the last pending element; always: nothing pending and >=1 removal => triggered, triggered => the pending set was emptied by a Done. Non-trivial = an Add hit an already pending element and some Done removed an element. Distinct by call list.")
+	stats.Rule(checkWGSeq, "rapid draws initial elements (0..3) and 1-12 Add / Done calls with 0-3 elements each (already pending, absent and repeated elements on purpose); an Add may carry operations that another caller performs while the Add sits at its k-th verif yield point (one per element, between the insertion into the pending set and the counter correction) - a deterministic, shrinkable enumeration of the Add||Done window. Oracle after every call: pending set == model; without interleaving: triggered <=> a Done removed the last pending element; always: nothing pending and >=1 removal => triggered, triggered => the pending set was emptied by a Done. Non-trivial = an Add hit an already pending element and some Done removed an element. Distinct by call list.")
 	rapid.Check(t, func(rt *rapid.T) {
 		p := wgSeqProg{Init: rapid.SliceOfN(rapid.IntRange(0, wgElems-1), 0, 3).Draw(rt, "init")}
 		inter := rapid.Custom(func(t *rapid.T) wgInter {
-			return wgInter{At: rapid.IntRange(0, 1).Draw(t, "at"), Ops: rapid.SliceOfN(genWGSimple(), 1, 2).Draw(t, "ops")}
+			return wgInter{At: rapid.IntRange(0, 2).Draw(t, "at"), Ops: rapid.SliceOfN(genWGSimple(), 1, 2).Draw(t, "ops")}
 		})
 		op := rapid.Custom(func(t *rapid.T) wgOp {
 			o := genWGSimple().Draw(t, "op")
@@ -352,7 +352,7 @@ func runWGConc(p wgConcProg) verdict {
 const checkWGConc = "waitgroup_concurrent"
 
 func TestWaitGroupConc(t *testing.T) {
-	stats.Rule(checkWGConc, "rapid draws initial elements and 2-4 goroutine scripts of 1-6 Add / Done calls (0-3 elements of 0..3 each, drawn yields). Interleaving is the Go scheduler's. Oracle at quiescence, from the pending-set history seen by a subscriber present from the start: nothing pending and >=1 removal => triggered; triggered => the pending set was emptied by a Done; 20 s hang watchdog. Non-trivial = an Add overlapped a Done of another goroutine (by stamps). Distinct by program.")
+	stats.Rule(checkWGConc, "rapid draws initial elements and 2-4 goroutine scripts of 1-6 Add / Done calls (0-3 elements of 0..3 each, drawn yields); one program in three is the targeted shape 'one goroutine keeps adding e, two others keep marking e done' (4-24 calls each, no yields). Interleaving is the Go scheduler's. Oracle at quiescence, from the pending-set history seen by a subscriber present from the start: nothing pending and >=1 removal => triggered; triggered => the pending set was emptied by a Done; 20 s hang watchdog. Non-trivial = an Add overlapped a Done of another goroutine (by stamps). Distinct by program.")
 	rapid.Check(t, func(rt *rapid.T) {
 		p := wgConcProg{Init: rapid.SliceOfN(rapid.IntRange(0, wgElems-1), 0, 3).Draw(rt, "init"), Slow: rapid.IntRange(0, 2).Draw(rt, "slow")}
 		op := rapid.Custom(func(t *rapid.T) wgOp {
@@ -360,7 +360,20 @@ func TestWaitGroupConc(t *testing.T) {
 			o.Yld = rapid.IntRange(0, 3).Draw(t, "yield")
 			return o
 		})
-		p.Scripts = rapid.SliceOfN(rapid.SliceOfN(op, 1, 6), 2, 4).Draw(rt, "scripts")
+		if rapid.IntRange(0, 2).Draw(rt, "targeted") == 0 {
+			// targeted shape: one goroutine keeps (re-)adding e while two others keep marking it done
+			e := rapid.IntRange(0, wgElems-1).Draw(rt, "e")
+			n := rapid.IntRange(4, 24).Draw(rt, "n")
+			var adds, dones []wgOp
+			for i := 0; i < n; i++ {
+				adds = append(adds, wgOp{Op: "add", Elems: []int{e}})
+				dones = append(dones, wgOp{Op: "done", Elems: []int{e}})
+			}
+			p.Scripts = [][]wgOp{adds, dones, append([]wgOp{}, dones...)}
+			p.Scripts = append(p.Scripts, rapid.SliceOfN(rapid.SliceOfN(op, 1, 4), 0, 1).Draw(rt, "others")...)
+		} else {
+			p.Scripts = rapid.SliceOfN(rapid.SliceOfN(op, 1, 6), 2, 4).Draw(rt, "scripts")
+		}
 		v := runWGConc(p)
 		key := strings.Join(p.strings(), "|")
 		stats.Case(checkWGConc, v.NonTrivial, key, func() any { return p.strings() }, v.Labels...)
